@@ -15,13 +15,13 @@ Dot(u, v) == LET RECURSIVE D(_)
                  D(i) == IF i = 0 THEN 0 ELSE u[i] * v[i] + D(i-1)
              IN D(IF Len(u) < Len(v) THEN Len(u) ELSE Len(v))
 Ill(x) == RE(1..100) <= IllShare
-VARIABLES prog, dim, anchor, phase, cur, focus, nd
-vars == <<prog, dim, anchor, phase, cur, focus, nd>>
+VARIABLES prog, dim, anchor, phase, cur, focus, nd, rk
+vars == <<prog, dim, anchor, phase, cur, focus, nd, rk>>
 D0 == [op |-> "", dst |-> 1, src |-> 0, n |-> 0, topo |-> "G", k |-> "x", var |-> 0, den |-> 1, mod |-> 0,
        v |-> <<>>, w |-> <<>>, vs |-> <<>>, cs |-> <<>>, gs |-> <<>>]
 Init == /\ prog = <<>> /\ dim = [s \in Slots |-> -1]
         /\ anchor = [s \in Slots |-> [i \in 1..MaxDim |-> RE(-1..1)]]
-        /\ phase = "op" /\ cur = "none" /\ focus = 1 /\ nd \in {RE(0..3)}
+        /\ phase = "op" /\ cur = "none" /\ focus = 1 /\ nd \in {RE(0..3)} /\ rk \in {RE({"op", "op", "twin"})}
 Alive(s) == dim[s] >= 0
 AliveS == {s \in Slots : Alive(s)}
 \* congruence (mod md, md = 0: equality) over n dimensions that the integer anchor a satisfies:  t.x - t.a + md*j = 0 (mod md)
@@ -61,22 +61,27 @@ DimOther == {"unconstrain", "unconstrain_set", "map_dims"}
 AllOps == CtorOps \cup UnObs \cup VarObs \cup ExprObs \cup BinObs \cup CgOps \cup CgsOps \cup ConOps \cup GGOps \cup GGsOps
           \cup BinMut \cup PoolOps \cup UnMut \cup ImgOps \cup DimUp \cup DimDown \cup DimOther
 DriverOps == {"min_congruences", "min_grid_generators", "congruences", "grid_generators", "add_grid_generator", "add_congruence", "is_empty", "contains", "equals"}
-RecipeLen == 5 + nd
+\* recipe "twin" (equal sets through different histories): ctor, ctor, nd drivers on slot 1, slot 2 := rebuild of slot 1 (one of four ways of
+\* reconstructing the same grid), the congruences of both are minimized, then the binary observers must treat the two as the same set
+RecipeLen == IF rk = "op" THEN 5 + nd ELSE 7 + nd
+Twin2 == Recipe /\ rk = "twin" /\ Len(prog) = 3 + nd
 RecipeTargets == (AllOps \cap OpSet) \ (CtorOps \cup PoolOps)
 RecipeOp == LET L == Len(prog) IN
             IF L = 0 THEN RE({"from_cgs", "from_ggs"})
             ELSE IF L = 1 THEN RE({"from_cgs", "from_ggs", "new"})
             ELSE IF L < 2 + nd THEN RE(DriverOps)
-            ELSE IF L = 2 + nd THEN RE(RecipeTargets) ELSE IF L = 3 + nd THEN "min_congruences" ELSE "min_grid_generators"
+            ELSE IF rk = "op" THEN (IF L = 2 + nd THEN RE(RecipeTargets) ELSE IF L = 3 + nd THEN "min_congruences" ELSE "min_grid_generators")
+            ELSE IF L = 2 + nd THEN "rebuild" ELSE IF L \in {3 + nd, 4 + nd} THEN RE({"min_congruences", "min_congruences", "congruences"})
+            ELSE IF L = 5 + nd THEN "equals" ELSE RE({"contains", "strictly_contains", "equals", "is_disjoint_from"})
 ChooseOp == /\ phase = "op" /\ Len(prog) < (IF Recipe THEN RecipeLen ELSE MaxLen)
             /\ LET ok == {o \in (AllOps \cap OpSet) : o \in CtorOps \/ AliveS # {}} IN
                \E op \in {IF Recipe THEN RecipeOp
                           ELSE IF AliveS = {} \/ (Cardinality(AliveS) < Cardinality(Slots) /\ RE(1..3) = 1) THEN RE(CtorOps \cap OpSet)
                           ELSE IF RE(1..3) = 1 /\ (DriverOps \cap ok) # {} THEN RE(DriverOps \cap ok) ELSE RE(ok)} : cur' = op
-            /\ phase' = "args" /\ UNCHANGED <<prog, dim, anchor, focus, nd>>
+            /\ phase' = "args" /\ UNCHANGED <<prog, dim, anchor, focus, nd, rk>>
 Args ==
-  /\ phase = "args" /\ phase' = "op" /\ cur' = "none" /\ UNCHANGED nd
-  /\ \E s0 \in {IF Recipe THEN (IF Len(prog) = 1 THEN 2 ELSE 1) ELSE IF AliveS = {} THEN focus ELSE IF Alive(focus) /\ RE(1..3) <= 2 THEN focus ELSE RE(AliveS)} : focus' = s0 /\
+  /\ phase = "args" /\ phase' = "op" /\ cur' = "none" /\ UNCHANGED <<nd, rk>>
+  /\ \E s0 \in {IF Recipe THEN (IF Len(prog) = 1 \/ Twin2 THEN 2 ELSE 1) ELSE IF AliveS = {} THEN focus ELSE IF Alive(focus) /\ RE(1..3) <= 2 THEN focus ELSE RE(AliveS)} : focus' = s0 /\
      \E ill \in {IF Recipe /\ Len(prog) # 2 + nd THEN FALSE ELSE Ill(Len(prog))} :
      \/ /\ cur \in CtorOps
         /\ \E s \in {IF Recipe \/ RE(1..2) = 1 THEN s0 ELSE RE(Slots)} :
